@@ -13,4 +13,7 @@ def units(tier):
         u.append(dict(kind="xlift", mechanism="xlift bounded (C), exact", name=f"xlift:analyzer+quick[{l}]", module="vf.tasks.t_fock", func="unit", args=dict(which="analyzer", label=l)))
     # the analyzer reused across calls (circuit edited / re-assigned, loss added, post-selection changed): same answers as a fresh analyzer (unit shared with C11)
     u.append(dict(kind="func", mechanism="bounded runtime contract (C)", name="bounded:analyzer-histories", module="vf.tasks.t_history", func="unit", args=dict(kind="analyzer")))
+    # the Sampler side of the comparison stays exact when it is a long-lived object whose circuit parameters move (large and tiny updates): unit shared with C04
+    u.append(dict(kind="func", mechanism="bounded runtime contract (C)", name="bounded:sampler-parameter-update-histories", module="vf.tasks.t_history", func="unit",
+                  args=dict(kind="sampler", only=["param", "param-tiny", "edit-circuit", "backend", "loss"])))
     return u
